@@ -140,6 +140,59 @@ def check_property_file(pid, rundir):
                 log=out[-4000:], theorems=theorems)
 
 
+def source_tie(rundir, wanted):
+    """The translator tie: regenerate Gen_Source.v from /repo's CURRENT sources (lib/srcgen.py), then re-check the fixed theorems of
+    coq_tie/Tie_Source.v against it. `wanted` = names of the tie theorems the calling property relies on.
+    Returns dict(ok, failed=[theorem names or 'translator'], log, theorems, assumptions, gen_sha)."""
+    import srcgen
+    tie_src = os.path.join(VERIF, "coq_tie", "Tie_Source.v")
+    tie_txt = open(tie_src).read()
+    names = re.findall(r"^Theorem\s+(\w+)", tie_txt, flags=re.M)
+    bad = [l.strip()[:100] for l in re.sub(r"\(\*.*?\*\)", "", tie_txt, flags=re.S).split("\n") if FORBIDDEN.search(l)]
+    try:
+        gen = srcgen.generate(REPO)
+    except Exception as e:
+        return dict(ok=False, failed=["translator"], log="lib/srcgen.py could not translate /repo's sources: %s" % e, theorems=names, assumptions=[], gen_sha=None)
+    h = hashlib.sha256(gen.encode() + tie_txt.encode())
+    for v in ("Base_Bytes.v", "Spec_SHA.v", "Spec_Base64.v", "Spec_Base32.v", "Spec_Base36.v"):
+        h.update(open(os.path.join(COQ, v), "rb").read())
+    cdir = os.path.join(CACHE, "tie"); os.makedirs(cdir, exist_ok=True)
+    cfile = os.path.join(cdir, h.hexdigest()[:24] + ".json")
+    res = None
+    if os.path.exists(cfile):
+        try: res = json.load(open(cfile))
+        except Exception: res = None
+    if res is None:
+        d = os.path.join(rundir, "tie"); os.makedirs(d, exist_ok=True)
+        open(os.path.join(d, "Gen_Source.v"), "w").write(gen)
+        rc, out = sh(["timeout", "300", "coqc", "-Q", COQ, "HV", "-Q", d, "GEN", os.path.join(d, "Gen_Source.v")], cwd=d, timeout=330)
+        failed = []
+        if rc != 0:
+            failed = ["translator"]; out = "generated Gen_Source.v does not compile: " + out[-1500:]
+        else:
+            # each theorem is checked on its own so that one broken statement does not hide the verdict of the others
+            pre = tie_txt.split("(* ---- tables")[0]
+            shutil.copy(tie_src, os.path.join(d, "Tie_Source.v"))
+            rc, out = sh(["timeout", "300", "coqc", "-Q", COQ, "HV", "-Q", d, "GEN", os.path.join(d, "Tie_Source.v")], cwd=d, timeout=330)
+            if rc != 0:
+                # find which theorems fail: compile a copy where every failing proof is located by bisection over the statement list
+                for n in names:
+                    body = re.search(r"^Theorem\s+%s\b.*?Qed\." % n, tie_txt, flags=re.M | re.S).group(0)
+                    helper = re.search(r"^Definition fips_sched.*?\.\n(?=Theorem)", tie_txt, flags=re.M | re.S).group(0)
+                    one = os.path.join(d, "One_%s.v" % n)
+                    open(one, "w").write(pre + helper + body + "\n")
+                    r1, o1 = sh(["timeout", "120", "coqc", "-Q", COQ, "HV", "-Q", d, "GEN", one], cwd=d, timeout=150)
+                    if r1 != 0: failed.append(n)
+                if not failed: failed = ["Tie_Source"]
+        ass = re.findall(r"^(Closed under the global context|Axioms:.*)$", out, flags=re.M)
+        res = dict(failed=failed, log=out[-1500:], assumptions=ass, gen_sha=hashlib.sha256(gen.encode()).hexdigest()[:16])
+        json.dump(res, open(cfile + ".tmp", "w")); os.replace(cfile + ".tmp", cfile)
+        for old in sorted(glob.glob(os.path.join(cdir, "*.json")), key=os.path.getmtime)[:-6]: os.remove(old)
+    rel = [f for f in res["failed"] if f in wanted or f in ("translator", "Tie_Source")]
+    if bad: rel.append("forbidden construct in Tie_Source.v: " + "; ".join(bad[:3]))
+    return dict(ok=not rel, failed=rel, log=res["log"], theorems=[n for n in names if n in wanted], assumptions=res["assumptions"], gen_sha=res["gen_sha"])
+
+
 def coqchk_property(pid):
     """Thorough tier: re-check Properties_<pid>.vo and everything it depends on with the independent checker; returns dict(ok, axioms, wall_s, log)."""
     h = hashlib.sha256()
